@@ -12,3 +12,4 @@ import checks_sm  # noqa: E402,F401
 import checks_table  # noqa: E402,F401
 import checks_gate  # noqa: E402,F401
 import checks_conc  # noqa: E402,F401
+import checks_actors  # noqa: E402,F401
